@@ -323,3 +323,193 @@ Proof.
     + exact H2.
     + intros keys' Hk'. destruct keys'; [reflexivity|]. simpl in Hk'. destruct n; discriminate.
 Qed.
+
+(** the statement as one reads it *)
+Theorem wedit_is_merge_of_restricted s :
+  wf_schema s = true -> choice_free s = true -> when_schema_ok s = true -> is_leaf s = false ->
+  forall src tgt new, shaped s src = true -> shaped s tgt = true ->
+  match wrestrict s src tgt new with
+  | XOk src' => wedit s src tgt new = XOk (merge_one s src' tgt new) /\ shaped s src' = true
+  | XErr => wedit s src tgt new = XErr
+  | XPanic => wedit s src tgt new = XPanic
+  | XUnsup => True
+  end.
+Proof.
+  intros Hwf Hcf Hok Hnl src tgt new Hs Ht.
+  pose proof (wedit_restricted s Hwf Hcf Hok Hnl src tgt new Hs Ht) as H. unfold follows in H.
+  destruct (wrestrict s src tgt new); try exact H. destruct H as [H1 [H2 _]]. auto.
+Qed.
+
+(** at a container-like entry point: UpsertFrom = the unconditional editor (= the merge) run on the restricted
+    source *)
+Theorem wupsert_is_edit_of_restricted kids src tgt :
+  forallb wf_schema kids = true -> forallb choice_free kids = true -> forallb when_schema_ok kids = true ->
+  shaped_kids shaped kids src = true -> shaped_kids shaped kids tgt = true ->
+  match wrestrict_content kids src tgt with
+  | XOk src' => wupsert kids src tgt = XOk (merge_content kids src' tgt) /\
+                edit_content false kids src' tgt Upsert = Ok (merge_content kids src' tgt) /\
+                shaped_kids shaped kids src' = true
+  | XErr => wupsert kids src tgt = XErr
+  | XPanic => wupsert kids src tgt = XPanic
+  | XUnsup => True
+  end.
+Proof.
+  intros Hwf Hcf Hok Hs Ht.
+  set (root := SCont (mkMeta [] [] true [] None) kids).
+  pose proof (wedit_is_merge_of_restricted root Hwf Hcf Hok eq_refl (DCont src) (DCont tgt) false Hs Ht) as H.
+  change (wrestrict root (DCont src) (DCont tgt) false)
+    with (xbind (wrestrict_content kids src tgt) (fun c => XOk (DCont c))) in H.
+  unfold wupsert. fold root.
+  destruct (wrestrict_content kids src tgt) as [src'| | |]; cbn [xbind] in H; try exact I.
+  - destruct H as [H1 H2]. rewrite H1. split; [reflexivity|]. split; [|exact H2].
+    apply upsert_content_is_merge; auto.
+  - now rewrite H.
+  - now rewrite H.
+Qed.
+
+(** * (2) every condition met holds: the conditional editor is the plain one *)
+Local Opaque merge_one.
+
+Section AllTrue.
+  Variable wrec : snode -> dnode -> dnode -> bool -> xres dnode.
+  Variable trec : snode -> dnode -> dnode -> bool -> bool.
+
+  Definition kid_true (k : snode) : Prop :=
+    sguard k = [] /\
+    (is_leaf k = false ->
+     forall sd td c, shaped k sd = true -> shaped k td = true -> trec k sd td c = true ->
+                     wrec k sd td c = XOk (merge_one k sd td c)).
+
+  Lemma wedit_loop_true kids sc new ks :
+    Forall kid_true ks ->
+    forall spre srest pre rest,
+      sc = spre ++ srest -> length spre = length pre ->
+      shaped_kids shaped ks srest = true -> shaped_kids shaped ks rest = true ->
+      wt_kids trec new kids ks srest pre rest = true ->
+      edit_loop (wedit_kid wrec new kids sc) ks (length pre) (pre ++ rest)
+      = XOk (pre ++ merge_kids merge_one new ks srest rest).
+  Proof.
+    induction 1 as [|k ks [Hg Hk] _ IH]; intros spre srest pre rest Hsc Hlen Hs Ht Hw.
+    - destruct srest, rest; simpl in *; try discriminate. reflexivity.
+    - destruct srest as [|sd srest], rest as [|td rest]; simpl in Hs, Ht; try discriminate.
+      apply andb_true_iff in Hs as [Hsd Hs]. apply andb_true_iff in Ht as [Htd Ht].
+      set (F := wedit_kid wrec new kids sc).
+      assert (Hnext : forall x,
+                 mhead new k sd td = x ->
+                 wt_kids trec new kids ks srest (pre ++ [x]) rest = true ->
+                 edit_loop F ks (S (length pre)) (pre ++ x :: rest)
+                 = XOk (pre ++ merge_kids merge_one new (k :: ks) (sd :: srest) (td :: rest))).
+      { intros x Hx Hgo.
+        specialize (IH (spre ++ [sd]) srest (pre ++ [x]) rest).
+        rewrite !app_length in IH. simpl in IH. rewrite !Nat.add_1_r in IH.
+        rewrite <- !app_assoc in IH. simpl in IH.
+        specialize (IH Hsc (f_equal S Hlen) Hs Ht Hgo). fold F in IH.
+        rewrite IH, merge_kids_cons, Hx. reflexivity. }
+      assert (Hsrc : nth (length pre) sc None = sd).
+      { subst sc. rewrite <- Hlen. apply nth_middle'. }
+      cbn [edit_loop]. fold F.
+      cbn [wt_kids] in Hw. fold (wt_kids trec new kids) in Hw.
+      destruct k as [m ty il dflt|m kk|m keys row].
+      + unfold F at 1, wedit_kid. rewrite Hg. cbn [length Nat.eqb negb]. rewrite Hsrc.
+        destruct sd as [d|].
+        * destruct (when_field true [] kids (pre ++ td :: rest) (SLeaf m ty il dflt)) as [[|]| | |];
+            try discriminate Hw.
+          cbn [xbind]. rewrite set_nth_middle. apply Hnext; auto.
+        * destruct (if new then option_map DLeaf dflt else None) as [d|] eqn:Ev.
+          -- destruct new; [|discriminate]. destruct dflt as [v|]; [|discriminate].
+             simpl in Ev. inversion Ev; subst d.
+             destruct (when_field true [] kids (pre ++ td :: rest) (SLeaf m ty il (Some v))) as [[|]| | |];
+               try discriminate Hw.
+             cbn [xbind]. rewrite set_nth_middle. apply Hnext; auto.
+          -- cbn [xbind]. apply Hnext; auto. simpl.
+             destruct new; [|reflexivity]. destruct dflt; [discriminate|reflexivity].
+      + specialize (Hk eq_refl).
+        unfold F at 1, wedit_kid. rewrite Hg. cbn [length Nat.eqb negb]. rewrite Hsrc, nth_middle'.
+        destruct sd as [sdn|]; [|cbn [xbind]; apply Hnext; auto].
+        destruct td as [[|cc|]|]; try discriminate Htd.
+        * destruct (when_cont true [] [] [] (SCont m kk) cc) as [[|]| | |]; try discriminate Hw.
+          apply andb_true_iff in Hw as [Hw1 Hw2]. cbn [xbind].
+          rewrite (Hk sdn (DCont cc) false Hsd Htd Hw1). cbn [xbind]. rewrite set_nth_middle.
+          apply Hnext; auto.
+        * destruct (when_cont true [] [] [] (SCont m kk) (empty_content kk)) as [[|]| | |]; try discriminate Hw.
+          apply andb_true_iff in Hw as [Hw1 Hw2]. cbn [xbind].
+          assert (He : shaped (SCont m kk) (empty_node (SCont m kk)) = true)
+            by (apply shaped_empty_node; reflexivity).
+          rewrite (Hk sdn _ true Hsd He Hw1). cbn [xbind]. rewrite set_nth_middle.
+          apply Hnext; auto.
+      + specialize (Hk eq_refl).
+        unfold F at 1, wedit_kid. rewrite Hg. cbn [length Nat.eqb negb]. rewrite Hsrc, nth_middle'.
+        destruct sd as [sdn|]; [|cbn [xbind]; apply Hnext; auto].
+        apply andb_true_iff in Hw as [Hw Hw2]. apply andb_true_iff in Hw as [Hw0 Hw1].
+        apply negb_true_iff in Hw0. rewrite Hw0.
+        assert (Ht' : shaped (SList m keys row)
+                        (match td with Some t => t | None => empty_node (SList m keys row) end) = true).
+        { destruct td; [exact Htd|reflexivity]. }
+        rewrite (Hk sdn _ (negb (present td)) Hsd Ht' Hw1). cbn [xbind]. rewrite set_nth_middle.
+        apply Hnext; auto.
+  Qed.
+
+  Lemma wrows_true keys row :
+    (forall sr tr c, shaped row sr = true -> shaped row tr = true -> trec row sr tr c = true ->
+                     wrec row sr tr c = XOk (merge_one row sr tr c)) ->
+    (forall sd td c, shaped row sd = true -> shaped row td = true -> shaped row (merge_one row sd td c) = true) ->
+    is_leaf row = false ->
+    forall srows trows, forallb (shaped row) srows = true -> forallb (shaped row) trows = true ->
+    wt_rows trec keys row srows trows = true ->
+    wrows_loop wrec keys row srows trows = XOk (merge_rows merge_one keys row srows trows).
+  Proof.
+    intros Hrec Hsh Hnl.
+    induction srows as [|sr srows IH]; intros trows Hs Ht Hw; [reflexivity|].
+    simpl in Hs. apply andb_true_iff in Hs as [Hsr Hs].
+    cbn [wt_rows wrows_loop] in Hw |- *. fold (wt_rows trec keys row) in Hw. fold (wrows_loop wrec keys row).
+    unfold merge_rows. cbn [fold_left].
+    destruct (lookup_row keys sr trows) as [j|] eqn:E; apply andb_true_iff in Hw as [Hw1 Hw2].
+    - assert (Hj : shaped row (nth j trows (DCont [])) = true).
+      { apply forallb_nth; [assumption|]. eapply lookup_row_bound; eauto. }
+      rewrite (Hrec sr _ false Hsr Hj Hw1). cbn [xbind]. apply IH; auto.
+      apply forallb_set_nth; [assumption|]. apply Hsh; assumption.
+    - assert (He : shaped row (empty_node row) = true) by (apply shaped_empty_node; assumption).
+      rewrite (Hrec sr _ true Hsr He Hw1). cbn [xbind]. apply IH; auto.
+      apply forallb_app'; [assumption|]. simpl. rewrite andb_true_r. apply Hsh; assumption.
+  Qed.
+End AllTrue.
+
+Theorem when_true_everywhere s :
+  wf_schema s = true -> choice_free s = true -> is_leaf s = false ->
+  forall src tgt new, shaped s src = true -> shaped s tgt = true ->
+  wwhens_true s src tgt new = true ->
+  wedit s src tgt new = XOk (merge_one s src tgt new).
+Proof.
+  induction s as [m ty il d|m kids IH|m keys row IH] using snode_ind'; intros Hwf Hcf Hnl src tgt new Hs Ht Hw.
+  - discriminate Hnl.
+  - destruct src as [|sc|], tgt as [|tc|]; simpl in Hs, Ht; try discriminate.
+    rewrite wedit_cont.
+    simpl in Hwf, Hcf. apply andb_true_iff in Hcf as [_ Hcf].
+    rewrite forallb_forall in Hwf, Hcf.
+    assert (HF : Forall (kid_true (fun k' a b n => wedit k' a b n) wwhens_true) kids).
+    { rewrite Forall_forall in *. intros k Hin. split.
+      - apply choice_free_guard. auto.
+      - intros Hkl sd td c' Hsd Htd Hc. apply IH; auto. }
+    pose proof (wedit_loop_true (fun k' a b n => wedit k' a b n) wwhens_true kids sc new kids HF
+                  [] sc [] tc eq_refl eq_refl Hs Ht Hw) as H.
+    simpl in H. rewrite H. Local Transparent merge_one. reflexivity.
+  - destruct src as [| |srows], tgt as [| |trows]; simpl in Hs, Ht; try discriminate.
+    rewrite wedit_list_loop. clear Hnl.
+    simpl in Hwf, Hcf. apply andb_true_iff in Hwf as [Hnl Hwf]. apply negb_true_iff in Hnl.
+    apply andb_true_iff in Hcf as [_ Hcf].
+    rewrite (wrows_true wedit wwhens_true keys row); auto.
+    intros. apply merge_shaped; auto.
+Qed.
+
+(** the editor that consults 'when' and the editor that knows nothing of it deliver the same *)
+Theorem when_true_everywhere_is_plain_edit kids src tgt :
+  forallb wf_schema kids = true -> forallb choice_free kids = true ->
+  shaped_kids shaped kids src = true -> shaped_kids shaped kids tgt = true ->
+  wwhens_true_content kids src tgt = true ->
+  wupsert kids src tgt = XOk (merge_content kids src tgt) /\
+  edit_content false kids src tgt Upsert = Ok (merge_content kids src tgt).
+Proof.
+  intros Hwf Hcf Hs Ht Hw. split; [|apply upsert_content_is_merge; auto].
+  unfold wupsert.
+  rewrite (when_true_everywhere (SCont (mkMeta [] [] true [] None) kids)); simpl; auto.
+Qed.
